@@ -107,6 +107,8 @@ impl TtlLease {
     ) -> Vec<Bytes> {
         let start = Instant::now();
         let now = SystemTime::now();
+        #[cfg(d_engine_verif)]
+        let now = verif_clock::now_or(now);
 
         // Phase 1: collect expired keys (read-only, with time limit)
         let to_remove: Vec<Bytes> = self
@@ -153,6 +155,8 @@ impl TtlLease {
         };
 
         let now = SystemTime::now();
+        #[cfg(d_engine_verif)]
+        let now = verif_clock::now_or(now);
         let manager = Self::new(config);
 
         // Rebuild single index, skipping expired keys
@@ -219,6 +223,8 @@ impl Lease for TtlLease {
 
         // Calculate absolute expiration time
         let expire_at = SystemTime::now() + Duration::from_secs(ttl_secs);
+        #[cfg(d_engine_verif)]
+        let expire_at = verif_clock::now() + Duration::from_secs(ttl_secs);
 
         // Single index update (overwrites old value if exists)
         // DashMap::insert is lock-free (only single shard write lock)
@@ -247,6 +253,10 @@ impl Lease for TtlLease {
         &self,
         key: &[u8],
     ) -> bool {
+        #[cfg(d_engine_verif)]
+        if verif_clock::is_set() {
+            return self.key_to_expiry.get(key).map(|e| *e <= verif_clock::now()).unwrap_or(false);
+        }
         if let Some(expire_at) = self.key_to_expiry.get(key) {
             *expire_at <= SystemTime::now()
         } else {
@@ -376,6 +386,8 @@ impl Lease for TtlLease {
         })?;
 
         let now = SystemTime::now();
+        #[cfg(d_engine_verif)]
+        let now = verif_clock::now_or(now);
 
         // Clear existing data
         self.key_to_expiry.clear();
@@ -402,4 +414,47 @@ impl Lease for TtlLease {
 #[derive(Debug, Serialize, Deserialize)]
 struct LeaseSnapshot {
     key_to_expiry: HashMap<Vec<u8>, SystemTime>,
+}
+
+/// Verification-only logical clock (guard: `--cfg d_engine_verif`; does not exist otherwise).
+///
+/// A process-global override for the `SystemTime::now()` reads of `TtlLease` and of the TTL call
+/// sites in the File / RocksDB state machines, so that a harness can drive time deterministically.
+/// With no override set (the default) every call site behaves exactly as before.
+#[cfg(d_engine_verif)]
+pub mod verif_clock {
+    use std::sync::atomic::AtomicU64;
+    use std::sync::atomic::Ordering;
+    use std::time::Duration;
+    use std::time::SystemTime;
+    use std::time::UNIX_EPOCH;
+
+    /// Milliseconds since the UNIX epoch; 0 = no override.
+    static OVERRIDE_MS: AtomicU64 = AtomicU64::new(0);
+
+    /// Set the logical clock (milliseconds since the UNIX epoch, must be > 0).
+    pub fn set_ms(ms: u64) {
+        OVERRIDE_MS.store(ms, Ordering::SeqCst);
+    }
+
+    /// Remove the override.
+    pub fn clear() {
+        OVERRIDE_MS.store(0, Ordering::SeqCst);
+    }
+
+    pub fn is_set() -> bool {
+        OVERRIDE_MS.load(Ordering::SeqCst) != 0
+    }
+
+    /// The logical time if an override is set, otherwise `real`.
+    pub fn now_or(real: SystemTime) -> SystemTime {
+        match OVERRIDE_MS.load(Ordering::SeqCst) {
+            0 => real,
+            ms => UNIX_EPOCH + Duration::from_millis(ms),
+        }
+    }
+
+    pub fn now() -> SystemTime {
+        now_or(SystemTime::now())
+    }
 }
